@@ -333,6 +333,26 @@ theorem starP_suffix (f : St → Option (St × List Tk)) (hf : ∀ t u toks, f t
       · exact List.suffix_refl _
     · exact List.suffix_refl _
 
+theorem sepLoop_suffix (f sep : St → Option (St × List Tk))
+    (hf : ∀ t u toks, f t = some (u, toks) → u.2 <:+ t.2)
+    (hsep : ∀ t u toks, sep t = some (u, toks) → u.2 <:+ t.2) :
+    ∀ (n : Nat) (s : St), ((sepLoop f sep n s).1).2 <:+ s.2 := by
+  intro n
+  induction n with
+  | zero => intro s; exact List.suffix_refl _
+  | succ n ih =>
+    intro s
+    simp only [sepLoop]
+    split
+    · rename_i t ts ht
+      split
+      · rename_i u tu hu
+        split
+        · exact ((ih u).trans (hf t u tu hu)).trans (hsep s t ts ht)
+        · exact List.suffix_refl _
+      · exact List.suffix_refl _
+    · exact List.suffix_refl _
+
 theorem parse_suffix (cc : CharClasses) (o : Opts) (lit : List Char → St → Option (St × TV)) (hl : Rightward lit)
     (g : PE) : ∀ (s t : St) (toks : List Tk), parse cc o lit g s = some (t, toks) → t.2 <:+ s.2 := by
   induction g with
@@ -385,6 +405,16 @@ theorem parse_suffix (cc : CharClasses) (o : Opts) (lit : List Char → St → O
     intro s t toks h
     simp only [parse] at h
     simp at h; rw [← h.1]; exact List.suffix_refl _
+  | sepPlus a sep iha ihs =>
+    intro s t toks h
+    simp only [parse] at h
+    split at h
+    · rename_i u ta hu
+      simp at h
+      have := sepLoop_suffix (parse cc o lit a) (parse cc o lit sep) iha ihs u.2.length u
+      rw [← h.1]
+      exact this.trans (iha s u ta hu)
+    · simp at h
 
 /-! ## the parser is a congruence in its literal matcher -/
 theorem starP_congr (f g : St → Option (St × List Tk)) (hf : ∀ t u toks, f t = some (u, toks) → u.2 <:+ t.2) :
@@ -400,6 +430,29 @@ theorem starP_congr (f g : St → Option (St × List Tk)) (hf : ∀ t u toks, f 
     · rename_i t toks ht
       have hts := hf s t toks ht
       rw [ih t (fun u hu => h u (hu.trans hts))]
+    · rfl
+
+theorem sepLoop_congr (f g sep sep' : St → Option (St × List Tk))
+    (hf : ∀ t u toks, f t = some (u, toks) → u.2 <:+ t.2)
+    (hsep : ∀ t u toks, sep t = some (u, toks) → u.2 <:+ t.2) :
+    ∀ (n : Nat) (s : St), (∀ t : St, t.2 <:+ s.2 → f t = g t ∧ sep t = sep' t) →
+      sepLoop f sep n s = sepLoop g sep' n s := by
+  intro n
+  induction n with
+  | zero => intro s _; rfl
+  | succ n ih =>
+    intro s h
+    simp only [sepLoop]
+    rw [← (h s (List.suffix_refl _)).2]
+    split
+    · rename_i t ts ht
+      have hts := hsep s t ts ht
+      rw [← (h t hts).1]
+      split
+      · rename_i u tu hu
+        have hut := (hf t u tu hu).trans hts
+        rw [ih u (fun w hw => h w (hw.trans hut))]
+      · rfl
     · rfl
 
 theorem parse_congr (cc : CharClasses) (o : Opts) (lit1 lit2 : List Char → St → Option (St × TV))
@@ -442,5 +495,17 @@ theorem parse_congr (cc : CharClasses) (o : Opts) (lit1 lit2 : List Char → St 
     simp only [parse]
     rw [← ih s (fun l hl' t ht => h l (by simpa [PE.lits] using hl') t ht)]
   | empty => intro s _; rfl
+  | sepPlus a sep iha ihs =>
+    intro s h
+    simp only [parse]
+    rw [← iha s (fun l hl' t ht => h l (by simp [PE.lits, hl']) t ht)]
+    split
+    · rename_i u ta hu
+      have hus := parse_suffix cc o lit1 hl a s u ta hu
+      rw [sepLoop_congr (parse cc o lit1 a) (parse cc o lit2 a) (parse cc o lit1 sep) (parse cc o lit2 sep)
+        (parse_suffix cc o lit1 hl a) (parse_suffix cc o lit1 hl sep) u.2.length u
+        (fun t ht => ⟨iha t (fun l hl' w hw => h l (by simp [PE.lits, hl']) w ((hw.trans ht).trans hus)),
+          ihs t (fun l hl' w hw => h l (by simp [PE.lits, hl']) w ((hw.trans ht).trans hus))⟩)]
+    · rfl
 
 end Kwd
